@@ -1412,6 +1412,10 @@ func (s *BgpServer) rtcVPNCandidates(peer *peer, isWithdraw bool, rt bgp.Extende
 		paths := make([]*table.Path, 0, len(raw))
 		for _, p := range raw {
 			if isWithdraw {
+				if peer.interestedIn(p) {
+					// still covered by another membership (or the default one)
+					continue
+				}
 				p = p.Clone(true)
 			}
 			paths = append(paths, p)
